@@ -159,6 +159,7 @@ def run_case(ctx, g):
     # tolerance from the forward-error budget of the base problem (worst row)
     c = kern.canon(pr)
     tol = np.zeros(N)
+    tol_stable = np.zeros(N)      # what two backward-stable evaluations could differ by
     for i in range(N):
         th = kern.theta_of(phys, i)
         M = kern.design(pr, c, th)
@@ -167,12 +168,24 @@ def run_case(ctx, g):
         rr = c["y"] - M @ c["mu"]
         tF, well, cA, cB = kern.budget(M, var, lam, 0.0, a["ll"][i], n, th["e"], r=rr)
         tol[i] = 4 * tF + 1e-9 * (1 + abs(a["ll"][i])) + 1e-13 * np.sqrt(cB) * float(np.sum(rr ** 2 / np.array(var)))
+        tol_stable[i] = min(tol[i], 400 * 2.220446049250313e-16 * cB * (abs(2 * float(a["ll"][i])) + 3 * n)
+                            + 1e-9 * (1 + abs(a["ll"][i])))
     # ---- R1 ----
     expect = a["ll"] - n * np.log(cfac)
     dev = np.abs(b["ll"] - expect)
     mg = ctx.extra.setdefault("margins", dict(max_jacobian_dev_over_tol=0.0))
     mg["max_jacobian_dev_over_tol"] = max(mg["max_jacobian_dev_over_tol"], float(np.max(dev / tol)))
     ctx.evaluated(R1, nontriv, sample=dict(n=n, data_unit_ratio=cfac, ll_base=a["ll"][:3], ll_twin=b["ll"][:3], expected_shift=-n * np.log(cfac)))
+    soft = np.where((dev > tol_stable) & (dev <= tol))[0]
+    if len(soft):
+        # twins differ by more than two backward-stable evaluations would, within the error bound of the kernel's
+        # Woodbury route: the known numerical instability (known_findings.json, C07-woodbury-cancellation)
+        i = int(soft[0])
+        ctx.count("twin deviation beyond backward-stable evaluation but within the Woodbury route's error bound", len(soft))
+        ctx.violation(R1, g, dict(inp, row=i, theta=kern.theta_of(phys, i)), dict(ll_base=a["ll"][i], ll_twin=b["ll"][i]),
+                      dict(expected_twin=expect[i], tol_backward_stable=tol_stable[i], budget_of_the_woodbury_route=tol[i]),
+                      "re-expressing the problem in other units changes ln-likelihood only by -n*ln(data unit ratio)",
+                      tags=dict(tags, what="woodbury-cancellation"))
     bad = np.where(~(dev <= tol))[0]
     if len(bad):
         i = int(bad[0])
